@@ -124,6 +124,13 @@ CHECKS["C11"] = dict(
     note="Trusted: the harness's packet builders and the reference checksum. ICMPv6 checksums are the kernel's and not checked. The C glue (socket filters, interface binding) is not run.",
 )
 
+CHECKS["C19"] = dict(
+    level="exploration",
+    text="Seeded search over the instants of registration, submission (once or twice), termination and completion waiting for bare participants (through a door that registers exactly as Tunnel::listen does), real HTTP/1.1 and HTTP/2 sessions with tunnels in flight and Core::listen(), all sharing one Shutdown; instants cluster within a microsecond of the submission so every order is reached; the oracle compares who noticed, how sessions wound down and when completion() returned with the instants participants actually finished.",
+    design="DESIGN.md section 8 (C19)",
+    note="Trusted: the h2 client's report of how its connection ended. endpoint/src/main.rs is not run.",
+)
+
 NOT_YET = {
 }
 
